@@ -692,6 +692,7 @@ def run(ctx: Ctx) -> None:
     from . import layouttext
 
     ctx.attempt(layouttext.rule_c02_r9, ctx)
+    ctx.attempt(layouttext.rule_c02_r10, ctx)
     ctx.assume("reachable alignments are {1, 8} (R4); capacities < 2**64")
     ctx.undecided("that every element of every set is a multiple of the alignment as a *set* fact, and the exactness of the bit-length-set arithmetic itself (C01)")
     ctx.analysed["modules"] = ["_serializable/_primitive", "_void", "_array", "_composite"]
